@@ -747,6 +747,21 @@ class Sim:
             if st == "exc" or v is not False:
                 self.fail("mapping:eq-true-for-different", got=v if st == "ok" else exc_name(v))
             self.res.stats["probe:eq-negative"] += 1
+            # ... a store in which one column has another name (same number of columns) ...
+            if self.model[b]:
+                st, copy3 = call(self.durable_copy, f)
+                if st == "ok":
+                    col0 = next(iter(self.model[b][c]))
+                    cells0 = self.model[b][c][col0]
+                    st2, _ = call(lambda: copy3[b][c].__setitem__("renamed_col", self.S.column([list(x) for x in cells0], "column")))
+                    if len(self.model[b][c]) > 1 or self.flavour == "bin":
+                        call(lambda: copy3[b][c].__delitem__(col0))
+                        st, v = call(lambda: f == copy3)
+                        if st == "exc" or v is not False:
+                            self.fail("mapping:eq-true-for-different", what="one column renamed", got=v if st == "ok" else exc_name(v))
+                        st, v = call(lambda: copy3 == f)
+                        if st == "exc" or v is not False:
+                            self.fail("mapping:eq-true-for-different", what="one column renamed (reversed)", got=v if st == "ok" else exc_name(v))
             # ... and so must a store in which one table has its last row once more (another row count)
             if self.model[b]:
                 st, copy2 = call(self.durable_copy, f)
